@@ -451,7 +451,7 @@ func (in *Interp) conv(dst, src types.Type, x Value, pos token.Pos) Value {
 				}
 				b, ok := bytesOf(v.V)
 				if !ok {
-					return &SymStr{Desc: "string(symbolic bytes)"}
+					return &SymStr{Desc: "string(symbolic bytes)", Bytes: append([]Value{}, v.V...)}
 				}
 				return string(b)
 			}
@@ -481,6 +481,11 @@ func (in *Interp) conv(dst, src types.Type, x Value, pos token.Pos) Value {
 			}
 			return Slice{b}
 		case *SymStr:
+			if v.Bytes != nil {
+				if eb, ok := ud.Elem().Underlying().(*types.Basic); ok && eb.Kind() == types.Uint8 {
+					return Slice{append([]Value{}, v.Bytes...)}
+				}
+			}
 			in.unsupp("[]byte(opaque string %q) at %s", v.Desc, in.posOf(pos))
 		case Slice:
 			return v
